@@ -299,7 +299,7 @@ _quick("C18", "C18_adminwills", "a binary connection switches to the text protoc
 
 _quick("C07", "C07_percent", "a hold with the share-of-expiry persistence flag (0x1000, 30 %) and E in {20, 140, 200, 600, 852, 1000} s (delay 6 / 42 / 60 / 180 / 255 / 300 s: the last two do not fit the byte the server keeps it in), clock advanced second by second through the real sweeps to delay + 15 s: the hold has been persisted", ["-witness", "4"])
 
-_quick("C12", "C12_remote_newer", "the remote REPL_PROPOSAL handler on an acceptor of weight 0..2, data-bearing or arbiter, whose current log position and the proposal's are each one of 4 positions (file index 1..2, offset 1 or 5; the acceptor's own member entry is stale): accepted only if the acceptor is an arbiter or its current log is not newer", ["-witness", "8"], reach=["end", "accepted"])
+_quick("C12", "C12_remote_newer", "the remote REPL_PROPOSAL handler on an acceptor of weight 0..2, data-bearing or arbiter, whose current log position and the proposal's are each one of 4 positions (file index 1..2, offset 1 or 5; the acceptor's own member entry is stale; the position it last heard of another member is one of the 4 too, that member reachable or offline): accepted only if the acceptor is an arbiter or its current log is not newer, and no known member's log is newer", ["-witness", "8"], reach=["end", "accepted"])
 
 _quick("C03", "C03_textexpire", "a text connection (real TextServerProtocol handlers) takes a hold with E = 3 s as its first lock-type command or after a LOCK / UNLOCK pair; the hold expires while the connection is silent; then LOCK on another key and UNLOCK: no notice queued for the connection, each command answered with its own result and LockId", ["-witness", "2"])
 
